@@ -363,6 +363,33 @@ def check_case(case):
             tabio.write(srt, q3, fmt)
             if open(q2, "rb").read() != open(q3, "rb").read():
                 bad(f"roundtrip:{fmt}:bytes", "write(read(write(T))) differs from write(sorted T)")
+            # auto-detection must also pick the right parser for the files cnvkit itself writes
+            if not case["dotted"]:
+                try:
+                    auto = tabio.read_auto(q1)
+                    agot = [tuple(x.item() if hasattr(x, "item") else x for x in r)
+                            for r in auto.data[["chromosome", "start", "end"]].itertuples(index=False)]
+                    if sorted_rows(agot) != sorted_rows([tuple(r[:3]) for r in rows]):
+                        bad(f"auto:written-{fmt}", f"read_auto(write(T, {fmt!r})) = {agot[:4]}, explicit reader gives {got[:4]}")
+                except Exception as exc:  # noqa: BLE001
+                    bad(f"auto:written-{fmt}:error", f"{type(exc).__name__}: {exc}")
+        # conversion chain: a BED4 file read by cnvkit (strand '.') written as an interval list and auto-detected
+        if not case["dotted"]:
+            try:
+                b4 = os.path.join(d, "chain.bed")
+                with open(b4, "w") as fh:
+                    fh.write(render("bed4", case))
+                mid = tabio.read(b4, "bed")
+                il = os.path.join(d, "chain.interval_list")
+                tabio.write(mid, il, "interval")
+                auto = tabio.read_auto(il)
+                agot = [tuple(x.item() if hasattr(x, "item") else x for x in r)
+                        for r in auto.data[["chromosome", "start", "end", "gene"]].itertuples(index=False)]
+                if sorted_rows(agot) != sorted_rows([tuple(r[:4]) for r in rows]):
+                    miss = [r for r in sorted_rows([tuple(r[:4]) for r in rows]) if r not in agot][:3]
+                    bad("auto:bed->interval", f"BED4 -> read -> write interval -> read_auto: expected but absent {miss}; got {agot[:3]}")
+            except Exception as exc:  # noqa: BLE001
+                bad("auto:bed->interval:error", f"{type(exc).__name__}: {exc}")
 
         # export seg -> parse_seg
         ns = case["nsamples"]
